@@ -233,20 +233,20 @@ def check_C05(tier):
     return rep.finish()
 
 
-def _log_grid(quick):
+def _log_grid(quick, rep=None, strict=False):
     import cm_log as G
     if quick:
-        return [G.LogConfig("log8", 2**32 - 1, 15), G.LogConfig("log8", 1000, 3), G.LogConfig("log8", 2**40, 100)]
-    return _log_grid_full()
+        return G.configs(rep or Report("tmp", "quick"), [("log8", 2**32 - 1, 15), ("log8", 1000, 3), ("log8", 2**40, 100)], strict)
+    return _log_grid_full(rep, strict)
 
 
-def _merge_grid(quick):
+def _merge_grid(quick, rep=None, strict=False):
     """Configurations for the merge-cell sweep: small max_count with small, medium and large reserved ranges
     (the step between the top counters may be smaller or larger than num_reserved), defaults, huge max_count."""
     import cm_log as G
     cfgs = [("log8", 2**32 - 1, 15), ("log8", 1000, 3), ("log8", 1000, 15), ("log8", 300, 40), ("log8", 2000, 100),
             ("log8", 2**40, 100), ("log8", 70000, 250), ("log8", 2**63, 0)]
-    return [G.LogConfig(*c) for c in cfgs]
+    return G.configs(rep or Report("tmp", "quick"), cfgs, strict)
 
 
 def _merge_pairs(cf, rng, quick):
@@ -256,11 +256,11 @@ def _merge_pairs(cf, rng, quick):
     return [(a, b) for a in range(256) for b in bs] + [(b, a) for a in range(248, 256) for b in range(256)]
 
 
-def _log_grid_full():
+def _log_grid_full(rep=None, strict=False):
     import cm_log as G
-    return [G.LogConfig(k, m, n) for k, m, n in
-            [("log8", 2**32 - 1, 15), ("log8", 1000, 3), ("log8", 300, 0), ("log8", 2**40, 100),
-             ("log8", 5000, 30), ("log8", 2**63, 0), ("log8", 10**6, 200), ("log8", 70000, 250)]]
+    return G.configs(rep or Report("tmp", "quick"),
+                     [("log8", 2**32 - 1, 15), ("log8", 1000, 3), ("log8", 300, 0), ("log8", 2**40, 100),
+                      ("log8", 5000, 30), ("log8", 2**63, 0), ("log8", 10**6, 200), ("log8", 70000, 250)], strict)
 
 
 def check_C06(tier):
@@ -279,24 +279,24 @@ def check_C06(tier):
     if not r.ok:
         rep.violation("LogChain: %s violated" % r.violated, {"kind": "model", "signature": {"model": r.violated}})
     # (b) the increment law: one implementation test per transition of the counter chain
-    cfgs = _log_grid(quick)
+    cfgs = _log_grid(quick, rep)
     batches = []
     for cf in cfgs:
         calls = G.step_calls(cf, range(256), rng)
         for i in range(0, len(calls), 128):
             batches.append(G.calls_batch(cf, calls[i:i + 128]))
-    cf16 = G.LogConfig("log16", 2**32 - 1, 1023)
+    cf16 = G.LogConfig("log16", 2**32 - 1, 1023)       # the default configuration
     counters = (sorted(set(list(range(0, 1100)) + list(range(65400, 65536)) + rng.sample(range(65536), 3000)))
                 if quick else range(65536))
     calls = G.step_calls(cf16, counters, rng)
     for i in range(0, len(calls), 4096):
         batches.append(G.calls_batch(cf16, calls[i:i + 4096]))
     if not quick:
-        cf16b = G.LogConfig("log16", 10**6, 100)
-        calls = G.step_calls(cf16b, range(65536), rng)
-        for i in range(0, len(calls), 4096):
-            batches.append(G.calls_batch(cf16b, calls[i:i + 4096]))
-        cfgs.append(cf16b)
+        for cf16b in G.configs(rep, [("log16", 10**6, 100)]):
+            calls = G.step_calls(cf16b, range(65536), rng)
+            for i in range(0, len(calls), 4096):
+                batches.append(G.calls_batch(cf16b, calls[i:i + 4096]))
+            cfgs.append(cf16b)
     G.validate_calls(rep, batches, "c06steps")
     rep.sample({"step_call": batches[0]["calls"][40], "config": {k: batches[0][k] for k in ("kind", "max_count", "NR")}})
     # decode law: observed table = closed formula, rises by base^(c-NR)
@@ -327,13 +327,13 @@ def check_C09(tier):
     G.model_check(rep, [], G.PROP_C09, W=2, D=1, UMax=4, NR=1, Slots=2, MaxTruth=4, B=2, tag="c09log")
     # all 256 x 256 counter pairs (tables set directly) for every log8 configuration of the grid
     batches = []
-    for cf in _merge_grid(quick):
+    for cf in _merge_grid(quick, rep):
         pairs = _merge_pairs(cf, rng, quick)
         calls = G.merge_calls(cf, pairs)
         for i in range(0, len(calls), 2048):
             batches.append(G.calls_batch(cf, calls[i:i + 2048]))
     # log16: every counter against the empty sketch and against itself, sampled pairs
-    for cf in ([G.LogConfig("log16", 2**32 - 1, 1023)] + ([] if quick else [G.LogConfig("log16", 10**6, 100)])):
+    for cf in G.configs(rep, [("log16", 2**32 - 1, 1023)] + ([] if quick else [("log16", 10**6, 100)])):
         step = 16 if quick else 1
         pairs = [(c, 0) for c in range(0, 65536, step)] + [(0, c) for c in range(0, 65536, step)] + \
                 [(c, c) for c in range(0, 65536, step * 4)]
@@ -368,6 +368,30 @@ def check_C18(tier):
     rep = Report("C18", tier)
     rng = _rng("C18")
     quick = tier == "quick"
+    # the ceiling of every accepted log configuration decodes to max_count, else ValueError
+    mcs = [300, 500, 1000, 5000, 70000, 10**6, 2**32 - 1, 2**40, 2**53, 2**63]
+    batches = []
+    for kind, um in (("log8", 255), ("log16", 65535)):
+        nrs = sorted(set([0, 1, 2, 3, 15, 30, 100, 200, 250, 253, 254] if um == 255 else
+                         [0, 1, 15, 1023, 5000, 30000, 60000, 65000, 65533, 65534]))
+        if not quick:
+            nrs = sorted(set(nrs + [rng.randrange(um) for _ in range(40)]))
+            mcs2 = mcs + [rng.randrange(300, 2**63) for _ in range(20)]
+        else:
+            mcs2 = mcs
+        calls, meta = G.ctor_calls(kind, [(m, n) for m in mcs2 for n in nrs])
+        batches.append(G.ctor_batch(kind, calls))
+        rep.sample({"ctor_grid": kind, "first": [list(map(str, x)) for x in meta[:3]]})
+    # merges that land at or beyond the ceiling: every counter paired with the top 16 counters, both orders
+    for cf in _merge_grid(quick, rep, strict=True):
+        pairs = [(a, b) for a in range(240, 256) for b in range(256)] + [(b, a) for a in range(240, 256) for b in range(256)]
+        calls = G.merge_calls(cf, pairs)
+        for i in range(0, len(calls), 2048):
+            batches.append(G.calls_batch(cf, calls[i:i + 2048]))
+    G.validate_calls(rep, batches, "c18ctor")
+    # specification growth: every constructor validation path, factory and attach dispatch
+    import ctors
+    ctors.validate(rep, rng, quick)
     # design level: small ceilings reached within 2-3 operations, adds/merges repeated after saturation
     L.model_check(rep, ["CellsBelowCap"], ["MonotoneProp"], W=2, D=2, Cap=3, MaxTruth=4 if quick else 6, Slots=2, tag="c18lin")
     G.model_check(rep, [], G.PROP_C18, W=2, D=1, UMax=3, NR=1, Slots=2 if not quick else 1, MaxTruth=5, B=2, tag="c18log")
@@ -390,30 +414,6 @@ def check_C18(tier):
     ht = [H.random_history(rng, focus="ceiling") for _ in range(n)]
     for i in range(0, n, 150):
         H.validate(rep, ht[i:i + 150], ["CountsBelowCap", "NoOver"], H.PROP_C18, tag="c18ht%d" % i)
-    # the ceiling of every accepted log configuration decodes to max_count, else ValueError
-    mcs = [300, 500, 1000, 5000, 70000, 10**6, 2**32 - 1, 2**40, 2**53, 2**63]
-    batches = []
-    for kind, um in (("log8", 255), ("log16", 65535)):
-        nrs = sorted(set([0, 1, 2, 3, 15, 30, 100, 200, 250, 253, 254] if um == 255 else
-                         [0, 1, 15, 1023, 5000, 30000, 60000, 65000, 65533, 65534]))
-        if not quick:
-            nrs = sorted(set(nrs + [rng.randrange(um) for _ in range(40)]))
-            mcs2 = mcs + [rng.randrange(300, 2**63) for _ in range(20)]
-        else:
-            mcs2 = mcs
-        calls, meta = G.ctor_calls(kind, [(m, n) for m in mcs2 for n in nrs])
-        batches.append(G.ctor_batch(kind, calls))
-        rep.sample({"ctor_grid": kind, "first": [list(map(str, x)) for x in meta[:3]]})
-    # merges that land at or beyond the ceiling: every counter paired with the top 16 counters, both orders
-    for cf in _merge_grid(quick):
-        pairs = [(a, b) for a in range(240, 256) for b in range(256)] + [(b, a) for a in range(240, 256) for b in range(256)]
-        calls = G.merge_calls(cf, pairs)
-        for i in range(0, len(calls), 2048):
-            batches.append(G.calls_batch(cf, calls[i:i + 2048]))
-    G.validate_calls(rep, batches, "c18ctor")
-    # specification growth: every constructor validation path, factory and attach dispatch
-    import ctors
-    ctors.validate(rep, rng, quick)
     _sample_linear(rep, lt)
     rep.cov["exhaustive"] = True
     rep.cov["rule"] = ("TLC exhaustive with ceilings 3 (reached within 2-3 operations); scaled edge replay at 2^32-1; validated "
@@ -633,11 +633,13 @@ def check_C19(tier):
     all3 = {"cms", "hh", "hll"}
     combos = [all3, {"cms", "hll"}, {"hh"}, {"cms"}]
     if quick:
-        scen = [(2, 4, 1, None), (1, 3, 3, None), (3, 4, 2, None), (2, 4, 0, (1, 1)), (2, 4, 1, (2, 1)), (3, 4, 0, (1, 2))]
+        scen = [(2, 4, 1, None), (1, 3, 3, None), (3, 4, 2, None), (2, 4, 0, (1, 1)), (2, 4, 1, (2, 1)), (3, 4, 0, (1, 2)),
+                (2, 8, 0, (1, 1)), (2, 9, 0, (2, 2))]       # more items than the queue holds: the filler is still busy
         per = 4
     else:
         scen = [(n, k, fs, None) for n in (1, 2, 3) for k in (3, 5) for fs in (1, 2, 3)] + \
-               [(n, 4, fs, d) for n in (2, 3) for fs in (0, 1) for d in ((1, 1), (1, 2), (2, 1))]
+               [(n, 4, fs, d) for n in (2, 3) for fs in (0, 1) for d in ((1, 1), (1, 2), (2, 1))] + \
+               [(2, 8, 0, (1, 1)), (2, 9, 1, (2, 2)), (3, 11, 0, (2, 1))]
         per = 12
     batch, ok = _padd_replays(rep, rng, scen, per, combos, "c19")
     if ok:
@@ -678,7 +680,7 @@ def check_C16(tier):
     for i, p in enumerate(ps):
         kind = kinds[i % 5]
         shape = S.SHAPES[kind][(i // 5) % len(S.SHAPES[kind])]
-        if not S.replay(rep, p, kind, shape, rng):
+        if not S.replay(rep, p, kind, shape, rng, from_file=(i % 3 == 2)):
             break
         n += 1
     rep.cov["traces_validated_against_impl"] += n
